@@ -641,5 +641,58 @@ class SecretsFoundInTheirOwnLine(Part):
         return res
 
 
+class EveryPrintableCharacterInSecrets(Part):
+    name = "secrets_with_every_printable_character"
+    desc = ("text secrets holding each printable ASCII character other than quotes and ';' in the middle, first and last, in "
+            "every one-class form: two runs with different secrets of that shape agree and no piece of the secret is left")
+
+    def __init__(self, tier, seed):
+        self.tier, self.seed = tier, seed
+        self.forms = {f["id"]: f for f in secdom.catalogue() if not f["scrub"] and "text" in f["classes"]}
+
+    def cases(self):
+        return [{"form": fid} for fid in sorted(self.forms)]
+
+    def run(self, case):
+        import string
+
+        res = Res()
+        f = self.forms[case["form"]]
+        n = max(1, f["slots"])
+        base = [secdom.run_lines_isolated([secdom.fill(f["template"], [x] * n)], "saltForTest")[0][0] for x in ("Xk3qvT9q", "Zr8qmWp2")]
+        if isinstance(base[0], tuple) or isinstance(base[1], tuple) or "Xk3q" in base[0] or base[0] != base[1]:
+            res.count("forms_left_to_the_catalogue_part")
+            return res
+        la, lb, sigs, reps = [], [], [], []
+        for c in string.punctuation:
+            if c in "\"';" or (c == ":" and "community-map" in f["template"]):
+                continue   # quotes and terminators are not part of a secret; ':' separates community and context there
+            for pos in ("mid", "start", "end"):
+                if "only" in case and case["only"] != [c, pos]:
+                    continue
+                A = {"mid": "Xk3" + c + "vT9q", "start": c + "Xk3vT9q", "end": "Xk3vT9q" + c}[pos]
+                B = {"mid": "Zr8" + c + "mWp2", "start": c + "Zr8mWp2", "end": "Zr8mWp2" + c}[pos]
+                la.append(secdom.fill(f["template"], [A] * n))
+                lb.append(secdom.fill(f["template"], [B] * n))
+                sigs.append(("%s|text|with-%s-%s|ctx=0.0.0" % (f["id"], "U+%04X" % ord(c), pos), False))
+                reps.append({"form": f["id"], "only": [c, pos]})
+        ga, _ = secdom.run_lines_isolated(la, "saltForTest")
+        gb, _ = secdom.run_lines_isolated(lb, "saltForTest")
+        for a, b, oa, ob, (stem, _d), rc in zip(la, lb, ga, gb, sigs, reps):
+            res.evals += 1
+            res.nt(a)
+            if isinstance(oa, tuple) or isinstance(ob, tuple):
+                res.violation("exception-on-secret|" + stem, "%r -> %r ; %r -> %r" % (a, oa, b, ob), rc)
+                continue
+            res.out(oa == ob)
+            if oa != ob:
+                res.violation("output-depends-on-secret|" + stem, "input A %r -> %r ; input B %r -> %r" % (a, oa, b, ob), rc)
+            elif "Xk3" in oa or "vT9q" in oa:
+                res.violation("secret-survives|" + stem, "input %r -> %r" % (a, oa), rc)
+        if "only" not in case:
+            res.samples.append({"form": f["id"], "lines": len(la)})
+        return res
+
+
 def parts(tier, seed):
-    return [Forms(tier, seed), Standalone(tier, seed), Sequences(tier, seed), SeveralOnOneLine(tier, seed), PunctuatedHashes(tier, seed), Columns(tier, seed), WithOtherOptions(tier, seed), SecretsFoundInTheirOwnLine(tier, seed)]
+    return [Forms(tier, seed), Standalone(tier, seed), Sequences(tier, seed), SeveralOnOneLine(tier, seed), PunctuatedHashes(tier, seed), Columns(tier, seed), WithOtherOptions(tier, seed), SecretsFoundInTheirOwnLine(tier, seed), EveryPrintableCharacterInSecrets(tier, seed)]
